@@ -12,11 +12,15 @@ LEVEL = ("decides writer/reader agreement of the DRCP text format from the two s
          'and every skeleton the writer can emit for a step kind must be in the language of the '
          "reader's grammar for that kind (K2, bounded); the literal token sets agree (K1); negation of"
          ' an atomic constraint is the involution GE(v)↔LE(v−1), EQ↔NE on the same variable (K3); the '
-         "literal definition lines the writer can emit, with every atomic kind and comparison symbol, are in the language of the reader's line grammar (K5). steps that differ "
-         'in which optional parts are present are written differently (K2 writer-injective); every '
-         "integer type of the format's step / atomic types and every integer type the writer formats "
-         'has a reader parser of the same type (K4 NUM-WIDTH). Does not decide equality of parsed '
-         'content for arbitrary identifiers and 64-bit values')
+         'literal definition lines the writer can emit, with every atomic kind and comparison symbol, '
+         "are in the language of the reader's line grammar (K5). steps that differ in which optional "
+         'parts are present are written differently (K2 writer-injective); every integer type of the '
+         "format's step / atomic types and every integer type the writer formats has a reader parser "
+         'of the same type (K4 NUM-WIDTH). Literal-definition lines the writer emits are in the reader'
+         ' grammar (K5), the two identifier grammars agree and admit a leading underscore (K6), and '
+         'every concrete atomic text is read by the alternative of the ordered choice that builds its '
+         'kind (K7). Does not decide equality of parsed content for arbitrary identifiers and 64-bit '
+         'values')
 TECHNIQUE = "static analysis: grammar recovery from nom combinators and format templates in rustc MIR, bounded language inclusion"
 
 # ---------------------------------------------------------------------------------------------
